@@ -56,6 +56,7 @@ def impl_modes(c):
         o["reset_same"] = reset_replay(c)
     o["reset_source_same"] = reset_with_source(c) if len(json.dumps(c["pre"])) % 3 == 0 else None
     o["inrun"] = inrun_control(c) if len(json.dumps(c["pre"])) % 3 == 1 else None
+    o["held"] = held_events_control(c) if len(json.dumps(c["pre"])) % 3 == 2 else None
     return o
 
 
@@ -196,6 +197,61 @@ def inrun_control(c):
     return dict(how=how, k=k, n=n_ev, paused=paused, at_pause=at_pause, expect=expect, same=(log == plain))
 
 
+def held_events_control(c):
+    """A batching entity creates events and holds them off the heap across pause/step boundaries, then
+    returns them together with events created later for the same instant.  Same-instant delivery order is
+    creation order in the uninterrupted run; pausing, stepping and resuming must not change it."""
+    import random as _r
+    from happysimulator.core.entity import Entity
+    from happysimulator.core.event import Event
+    from happysimulator.core.simulation import Simulation
+    from happysimulator.core.temporal import Instant
+    rng = _r.Random(len(json.dumps(c["prog"])) * 7907 + len(c["pre"]) * 13)
+    n_make = rng.randint(1, 4)
+    steps = [rng.randint(1, 2) for _ in range(rng.randint(1, 4))]
+    T = 2_000_000_000
+
+    def build():
+        log = []
+
+        class Sink(Entity):
+            def handle_event(self, event):
+                log.append([self.now.nanoseconds, event.event_type])
+                return None
+
+        class Batcher(Entity):
+            def __init__(self, name):
+                super().__init__(name)
+                self.buf = []
+
+            def handle_event(self, event):
+                log.append([self.now.nanoseconds, event.event_type])
+                if event.event_type.startswith("make"):
+                    self.buf.append(Event(time=Instant(T), event_type="held" + event.event_type[4:], target=sink))   # created, NOT returned
+                    return None
+                out, self.buf = self.buf, []
+                return [Event(time=Instant(T), event_type="late0", target=sink), *out,
+                        Event(time=Instant(T), event_type="late1", target=sink)]
+        sink, b = Sink("sink"), Batcher("batcher")
+        sim = Simulation(entities=[sink, b], end_time=Instant(T + 1_000_000_000))
+        for i in range(n_make):
+            sim.schedule(Event(time=Instant(100_000_000 * (i + 1)), event_type=f"make{i}", target=b))
+        sim.schedule(Event(time=Instant(1_000_000_000), event_type="flush", target=b))
+        return sim, log
+    sim, plain = build()
+    sim.run()
+    sim, log = build()
+    ctl = sim.control
+    ctl.pause()
+    sim.run()
+    for k in steps:
+        if ctl.is_paused:
+            ctl.step(k)
+    if ctl.is_paused:
+        ctl.resume()
+    return dict(same=(log == plain), plain=plain[-8:], observed=log[-8:], steps=steps)
+
+
 def oracle_modes(c, o):
     if o["status"] == 3:
         return [dict(clause="run exceeded the wall-clock limit")]
@@ -208,6 +264,10 @@ def oracle_modes(c, o):
     if o.get("reset_source_same") is not None and not o["reset_source_same"][0]:
         out.append(dict(clause="reset() followed by run() repeats the original delivery sequence (sources re-primed, pre-run events replayed)",
                         first=o["reset_source_same"][1], second=o["reset_source_same"][2]))
+    hd = o.get("held")
+    if hd is not None and not hd["same"]:
+        out.append(dict(clause="pausing / stepping while an entity holds created-but-unscheduled events does not change same-instant delivery order",
+                        observed=hd))
     ir = o.get("inrun")
     if ir is not None:
         if not ir["paused"] or ir["at_pause"] != ir["expect"]:
